@@ -8,9 +8,13 @@ package lagrange
 // committees with member ids above the table's range (20) and products beyond 2^63 are covered - and only the final
 // quotient is reduced modulo the group order. (Modular inversion itself: abstract.)
 //@ spec prodJ(s []int64, i Int, n Int) Int = n <= 0 ? 1 : (s[n-1] == i ? prodJ(s, i, n - 1) : prodJ(s, i, n - 1) * s[n-1])
-//@ spec prodD(s []int64, i Int, n Int) Int = n <= 0 ? 1 : (s[n-1] == i ? prodD(s, i, n - 1) : prodD(s, i, n - 1) * (s[n-1] - i))
+//@ spec prodD(s []int64, i Int, n Int) Int = n <= 0 ? 1 : (s[n-1] == i ? prodD(s, i, n - 1) : prodD(s, i, n - 1) * wrap64(s[n-1] - i))
 //@ func ComputeCoefficient
-//@ nooverflow
-//@ requires 0 <= i && i <= T61 && (forall j :: 0 <= j && j < len(s) ==> 0 <= s[j] && s[j] <= T61)
 //@ loop 0: invariant numerator == prodJ(s, i, #i) && denominator == prodD(s, i, #i)
 //@ assert before result: numerator == prodJ(s, i, len(s)) && denominator == prodD(s, i, len(s))
+
+// the table routine: PRIME_FACTORS / PRECOMPUTED_POWERS are indexed by the ids and by |j - i|: every id must be within
+// the table (1..20), otherwise it indexes out of range
+//@ func ComputeCoefficientPreCompute
+//@ trusted
+//@ requires i <= 20 && (forall j :: 0 <= j && j < len(s) ==> s[j] <= 20)
